@@ -395,6 +395,10 @@ async def apply_api(part: BodyPartReader, sc: dict, o: dict, ctx: Ctx) -> None:
             lines.append(bytes(await part.readline()))
         if api == "partial_readline":
             o["prefix"] = b"".join(lines)
+            if sc.get("then") == "release":
+                await part.release()
+            elif sc.get("then") == "read":
+                o["rest"] = bytes(await part.read())
         else:
             o["data"] = b"".join(lines)
         o["nlines"] = len(lines)
